@@ -71,13 +71,24 @@ def barrier_xid(of, of01, sock):
   return r
 
 
+HELD = [None]
+
 def feed(con, sock, msg):
-  """deliver one message; returns False if the connection told the loop to drop it (the loop then closes it)"""
-  sock.feed(msg.pack())
+  """deliver one message; returns False if the connection told the loop to drop it (the loop then closes it).
+  While HOLD is set the bytes are only queued: they arrive in the same recv() chunk as the messages that follow (TCP coalescing)."""
+  data = msg.pack()
+  if HELD[0] is not None: data = HELD[0] + data
+  if HOLD[0]:
+    HELD[0] = data
+    return True
+  HELD[0] = None
+  sock.feed(data)
   r = con.read()
   if r is False: con.close()
   return r
 
+
+HOLD = [False]
 
 def h_handshake(ctx, script):
   """script letters: H hello, F features reply, p port_status, e echo request, i packet_in, B barrier reply (symbolic xid),
@@ -91,8 +102,12 @@ def h_handshake(ctx, script):
   con.addListenerByName('ConnectionDown', lambda e: conlog.append('down'))
   dpid = ctx.int('dpid', 0, (1 << 64) - 1)
   have_features = False; up_expected = False; alive = True; ports_after_features = []; pn = 0
+  HOLD[0] = False; HELD[0] = None
   for i, ch in enumerate(script):
     if not alive: break
+    if ch == '+': continue
+    HOLD[0] = script[i + 1:i + 2] == '+'            # 'x+y': x and y arrive in one recv() chunk
+    if HOLD[0]: ctx.witness('coalesced')
     if ch == 'H': alive = feed(con, sock, of.ofp_hello()) is not False
     elif ch == 'F':
       fr = of.ofp_features_reply(datapath_id=dpid, xid=ctx.int('fx', 0, 0xffffffff))
@@ -122,6 +137,7 @@ def h_handshake(ctx, script):
         ok = have_features and bx is not None and bool(ctx.And(x == bx, et == 1, ec == 1))
         bad = False
       was_up = up_expected
+      if HOLD[0] and bad: ctx.assume(False)          # inside a coalesced chunk only the well-behaved barrier reply is explored
       alive = feed(con, sock, m) is not False
       if ok and not was_up: up_expected = True; ctx.witness('up')
       if bad and not was_up:
@@ -146,7 +162,7 @@ def h_handshake(ctx, script):
       con.close(); alive = False
       ctx.witness('lost')
     nups = sum(1 for x in log if x[0] == 'up')
-    ctx.check('ConnectionUp count so far', nups == (1 if up_expected else 0))
+    if not HOLD[0]: ctx.check('ConnectionUp count so far', nups == (1 if up_expected else 0))
   ups = [k for k, x in enumerate(log) if x[0] == 'up']
   ctx.check('ConnectionUp exactly once iff handshake completed', len(ups) == (1 if up_expected else 0))
   ctx.check('ConnectionUp on the connection object too', conlog.count('up') == (1 if up_expected else 0))
@@ -232,13 +248,13 @@ def h_registry(ctx, order):
 
 def obligations(tier):
   thorough = tier != 'quick'
-  scripts = ['HFBX', 'HFpBpX', 'HFX', 'HFB', 'HFE', 'HFpB', 'HFpepB', 'HFpiBp', 'HFBL', 'HFL', 'HL', 'HFpL', 'HBFB', 'FHB', 'HFEB', 'HFBB', 'HFpEpL', 'HpFB', 'HFeBpL']
+  scripts = ['HFB+p', 'HFB+p+e+pL', 'HFp+B+p', 'H+Fp+B+pL', 'H+FB', 'HFE+p', 'HFB+i+p', 'HFp+e+B+p+i+pL', 'HFBX', 'HFpBpX', 'HFX', 'HFB', 'HFE', 'HFpB', 'HFpepB', 'HFpiBp', 'HFBL', 'HFL', 'HL', 'HFpL', 'HBFB', 'FHB', 'HFEB', 'HFBB', 'HFpEpL', 'HpFB', 'HFeBpL']
   if thorough: scripts += ['HFppBpL', 'HFEEB', 'HFpBpBL', 'HFiepEeL', 'HHFFB', 'HFBpLp', 'HFpeipB', 'L', 'HFEpEL']
   orders = ['', 's', 'as', 'bs', 'abs', 'bas', 'sas', 'asbs', 'sbsa']
-  BOUNDS[tier] = dict(handshake_scripts=scripts, legend="X fatal error on a controller send then loop close, H hello, F features reply(sym dpid), p port_status(sym port), e echo, i packet_in, "
+  BOUNDS[tier] = dict(handshake_scripts=scripts, legend="x+y: x and y arrive in one recv() chunk; X fatal error on a controller send then loop close, H hello, F features reply(sym dpid), p port_status(sym port), e echo, i packet_in, "
                       "B barrier reply(sym xid), E error(sym xid/type/code), L loss", registry_orders=orders, connections=2)
   return [
-    Obligation('O1_handshake', h_handshake, [dict(script=s) for s in scripts], witnesses=('up', 'lost', 'bad-barrier'), max_decisions=20000,
+    Obligation('O1_handshake', h_handshake, [dict(script=s) for s in scripts], witnesses=('up', 'lost', 'bad-barrier', 'coalesced'), max_decisions=20000,
                desc='ConnectionUp/Down exactly once, ordering of deferred port-status, registry entry, for each handshake script'),
     Obligation('O2_registry', h_registry, [dict(order=o) for o in orders], witnesses=('same-dpid', 'different-dpid'), max_decisions=20000,
                desc='two connections with possibly equal dpids: registry == most recent live handshaken connection; sendToDPID target'),
